@@ -569,15 +569,15 @@ static int replay(const std::string &path) {
 }
 
 int main(int argc, char **argv) {
-    A = vc::parse_args(argc, argv);
+    A = vc::parse_args(argc, argv); const bool all_modes = A.mode.empty() || A.mode == "c01"; (void)all_modes; // --mode c01: every campaign, only sanitizer reports count
     if (!A.replay.empty()) return replay(A.replay);
     g_stats.init(A);
     g_stats.max_samples = 8;
     vc::install_crash_capture();
-    if (A.mode.empty() || A.mode == "list") { list_bfs(); if (g_stats.failures.empty()) list_random(); }
-    if (A.mode.empty() || A.mode == "table") table_random();
-    if (A.mode.empty() || A.mode == "bstr") bstr_exhaustive();
-    if (A.mode.empty() || A.mode == "num") numbers();
+    if (all_modes || A.mode == "list") { list_bfs(); if (g_stats.failures.empty()) list_random(); }
+    if (all_modes || A.mode == "table") table_random();
+    if (all_modes || A.mode == "bstr") bstr_exhaustive();
+    if (all_modes || A.mode == "num") numbers();
     g_stats.exhaustive = false; // mixed: BFS and bstr parts are exhaustive within their bounds, the rest is sampled
     g_stats.write();
     return g_stats.failures.empty() ? 0 : 1;
